@@ -119,6 +119,10 @@ type script struct {
 	Policy []string `json:"policy"`
 	Items  int      `json:"items"`
 	Err    bool     `json:"err"`
+	// kind "slowq"
+	Backend string `json:"backend"`
+	Total   int    `json:"total"`
+	WaitMs  int    `json:"waitms"`
 }
 
 type item struct {
@@ -898,6 +902,60 @@ func runIter(tr *vio.Trace, h int, sc *script) {
 	tr.Flush()
 }
 
+// ---------------------------------------------------------------- a storage error in a real query
+
+// runSlowQuery lets a real backend run into its result-stream timeout: more matching records than the
+// stream buffers and a consumer that starts late. What the consumer got and what Err() said afterwards
+// is logged; spec/IteratorTrace.tla holds the rule (fewer records than stored only with an error).
+func runSlowQuery(tr *vio.Trace, h int, sc *script) {
+	name := "dbx-slow-" + sc.Backend
+	if _, err := database.Register(&database.Database{Name: name, Description: "C02 slow consumer", StorageType: sc.Backend}); err != nil {
+		tr.EmitRaw(map[string]any{"e": "skip", "h": h, "why": err.Error()})
+		return
+	}
+	i := database.NewInterface(&database.Options{Local: true, Internal: true})
+	for k := 0; k < sc.Total; k++ {
+		r := &Rec{I1: int64(k)}
+		r.SetKey(fmt.Sprintf("%s:s%02d", name, k))
+		if err := i.Put(r); err != nil {
+			tr.EmitRaw(map[string]any{"e": "skip", "h": h, "why": err.Error()})
+			return
+		}
+	}
+	ev := map[string]any{"e": "slowq", "h": h, "b": sc.Backend, "total": sc.Total, "n": 0, "v": "nil", "panic": ""}
+	it, err := i.Query(query.New(name + ":s"))
+	if err != nil {
+		ev["v"] = errClass(err)
+		ev["panic"] = "query refused: " + err.Error()
+		tr.EmitRaw(ev)
+		return
+	}
+	time.Sleep(time.Duration(sc.WaitMs) * time.Millisecond)
+	n := 0
+	timeout := time.After(20 * time.Second)
+drain:
+	for {
+		select {
+		case _, ok := <-it.Next:
+			if !ok {
+				break drain
+			}
+			n++
+		case <-timeout:
+			it.Cancel()
+			ev["panic"] = "query result stream did not end within 20 s"
+			break drain
+		}
+	}
+	ev["n"] = n
+	ev["v"] = errClass(it.Err())
+	if it.Err() != nil {
+		ev["info"] = it.Err().Error()
+	}
+	tr.EmitRaw(ev)
+	tr.Flush()
+}
+
 // ---------------------------------------------------------------- main
 
 func main() {
@@ -940,6 +998,10 @@ func main() {
 		}
 		if sc.Kind == "iter" {
 			runIter(tr, h, &sc)
+			return nil
+		}
+		if sc.Kind == "slowq" {
+			runSlowQuery(tr, h, &sc)
 			return nil
 		}
 		for ci, c := range sc.Cfgs {
